@@ -677,9 +677,6 @@ impl<T: Elem, V: Vecish<T>> Runner<T, V> {
         if matches!(op, Op::Write | Op::Flush) { self.tags.push(pre.regime()); }
         self.nstep += 1;
         if r == Res::Panic { self.dead = true; }
-        // big histories leave the first reservation (the region relocates): the bytes behind the valid length
-        // are no longer the model's, so the case ends where the code could start reading them (known findings 3/4)
-        if self.big && r == Res::Err("WriteOutOfBounds") { self.dead = true; }
     }
 }
 
@@ -820,11 +817,6 @@ fn gen_case<T: Elem, V: Vecish<T>>(id: &str, cfg: &Cfg, prof: Profile, rng: &mut
                 let t = match g.rng.below(4) { 0 => cur, 1 => cur.saturating_sub(1), 2 => cur + 1, _ => g.rng.below(cur + 2) };
                 cands.push((5, Op::RollbackBefore(t)));
             }
-        }
-        if prof == Profile::Safe && since_rb < 100 {
-            // steer clear of the known classes: after a rollback only commit/rollback/push-free edits … simplest: stop editing
-            cands.retain(|(_, o)| matches!(o, Op::Commit(_) | Op::RollbackBefore(_) | Op::Reset));
-            if cands.is_empty() { cands.push((1, Op::Reset)); }
         }
         let total: u32 = cands.iter().map(|c| c.0).sum();
         let mut x = g.rng.below(total as u64) as u32;
